@@ -105,6 +105,10 @@ def setup(E):
 def build(E, tier):
     reconfigure(E)
     nodes_list(E)
+    # HashClient.add_server's contract (used by reconfigure_nodes for every advertised node): one client of the right class, built
+    # for that server from the stored options, registered under the node name, node in rotation
+    from . import hashmany
+    hashmany.verify_hash_ctor(E, "C19")
 
 
 def reconfigure(E):
